@@ -16,9 +16,9 @@ from vplib.common import VERIF
 
 MANIFEST = dict(
     category="proof",
-    text="partial. Coq theorems (props/C09.v) on the executable model of check_type_relation / the narrowing primitives; see the file for which statements are proved on which fragment. Every run ties the model to the code by differential execution on generated type graphs (ids, booleans, full registry dumps) and judges the REAL functions' answers against the value semantics of Sem.v by exhaustive enumeration up to depth 3.",
+    text="partial. Coq theorems on the executable model of check_type_relation (both modes, mirrors /repo after the fix: commits for F7/F12) and of the registry: compat_sound_partial (is_compatible => containment of values, on the cycle-free fragment: no Cycle/Variable reachable, unnamed partials, for every model variant that retracts failed assumptions), compat_refl (outright), overlap_complete_partial (a `false` of types_overlap proves disjointness, first-order cycle-free fragment), registry monotonicity (register_type/register_tuple only append; meaning of existing ids preserved for first-order values); refutation witnesses (vm_compute) for F7/F12 as found and for the open findings F23, F25 and the partial-name defect. NOT proved (validated only): compat_trans, compat_sound/overlap_complete on the recursive fragment, intersect_keeps/complement_keeps. Every run ties the model to the code by differential execution on generated type graphs (returned ids, booleans, full registry dumps after intersect/complement) and judges the REAL functions' answers against the value semantics of Sem.v by exhaustive value enumeration to depth 3 (soundness, overlap completeness, intersect/complement keep values, reflexivity/transitivity).",
     design_ref="§5 C09",
-    note="Trusted: Coq kernel, extraction, OCaml driver, Rust harness, generator. The oracle's enumeration is over a small atom universe (one int, one bin, one ref; registered tuple shapes; registered closed callable/process types as function/process values).",
+    note="Trusted: Coq kernel, extraction, OCaml driver, Rust harness, generator. The oracle's enumeration is over a small atom universe (one int, one bin, one ref; registered tuple shapes; registered closed callable/process types as function/process values); a dangling Cycle in a RESULT of narrowing is read as `any`, as the code base reads it. Known findings F23-F26 are matched by structural signature only; a failure in the cycle-free first-order fragment is always a violation.",
     technique="Coq proof on an executable model + model/code correspondence + semantic oracle by bounded exhaustive enumeration",
 )
 
@@ -298,7 +298,7 @@ def run(ctx):
     for line in load_corpus("c09_graphs.txt"):
         cases.append((line, qs_of_line(line), {}, "corpus"))
     ncorpus = len(cases)
-    n = ctx.n(3000, 120000)
+    n = ctx.n(3000, 60000)
     profs = ["fo"] * 5 + ["fo_nocycle"] * 2 + ["partial"] * 2 + ["higher"] * 2
     for i in range(n):
         prof = profs[i % len(profs)]
